@@ -196,16 +196,20 @@ def jetexpand_ode_via_jvp(*, num: int) -> JetExpansionAlg[problems.JetOde]:
         if vf.is_jet_lifted:
             raise ValueError
 
-        def vf_wrapped(*jet_coords):
-            [vfx] = vf.vector_field(jet_coords=jet_coords, t=t)
+        # Treat time as an additional coordinate (with unit velocity)
+        # so that the recursion differentiates along (u, u', ..., t).
+        def vf_wrapped(*jet_coords_and_t):
+            *jet_coords, t_ = jet_coords_and_t
+            [vfx] = vf.vector_field(jet_coords=jet_coords, t=t_)
             return vfx
 
         g_n, g_0 = vf_wrapped, vf_wrapped
 
-        taylor_coeffs = [*inits, vf_wrapped(*inits)]
+        t = np.asarray(t, dtype=float)
+        taylor_coeffs = [*inits, vf_wrapped(*inits, t)]
         for _ in range(num - 1):
             g_n = _fwd_recursion_iterate(fun_n=g_n, fun_0=g_0)
-            taylor_coeffs = [*taylor_coeffs, g_n(*inits)]
+            taylor_coeffs = [*taylor_coeffs, g_n(*inits, t)]
         return taylor_coeffs, {}
 
     return expand
@@ -214,11 +218,15 @@ def jetexpand_ode_via_jvp(*, num: int) -> JetExpansionAlg[problems.JetOde]:
 def _fwd_recursion_iterate(*, fun_n, fun_0):
     r"""Increment $F_{n+1}(x) = \langle (JF_n)(x), f_0(x) \rangle$."""
 
-    def df(*jet_coords: *tuple[T]) -> list[T]:
+    def df(*jet_coords_and_t: *tuple[T]) -> list[T]:
+        *jet_coords, t = jet_coords_and_t
+
         # Assign primals and tangents for the JVP
-        vals = (*jet_coords, fun_0(*jet_coords))
+        vals = (*jet_coords, fun_0(*jet_coords, t))
         primals_in, tangents_in = vals[:-1], vals[1:]
 
+        # Time is a coordinate with unit velocity
+        primals_in, tangents_in = (*primals_in, t), (*tangents_in, np.ones_like(t))
         _, tangents_out = func.jvp(fun_n, primals_in, tangents_in)
         return tangents_out
 
@@ -317,13 +325,17 @@ def jetexpand_ode_coefficient_double() -> JetExpansionAlg[problems.JetOde]:
         """
         zeros = np.zeros_like(c[0])
 
-        def vf_wrapped(*u):
-            [vfx] = vf.vector_field(jet_coords=u, t=t)
+        def vf_wrapped(u, t_):
+            [vfx] = vf.vector_field(jet_coords=(u,), t=t_)
             return vfx
 
         coeffs_emb = [*c] + [zeros] * degree
         p, *s = coeffs_emb
-        p_new, s_new = func.jet(vf_wrapped, (p,), (s,), is_tcoeff=True)
+
+        # Normalised Taylor coefficients of time: (t, 1, 0, ..., 0)
+        t_ = np.asarray(t, dtype=float)
+        s_t = [np.ones_like(t_), *[np.zeros_like(t_) for _ in s[1:]]]
+        p_new, s_new = func.jet(vf_wrapped, (p, t_), (s, s_t), is_tcoeff=True)
         return np.stack([p_new, *s_new])
 
     return double
